@@ -219,3 +219,146 @@ package network
 //@   requires a != nil && p != nil && cacheOK(cache) && ErrInvalidSignature != nil
 //@   callpre VerifySignature: content == p.secureKey.extra
 //@   callpre setID: id != nil && id == ghost(verified_id)
+
+// ---------------------------------------------------------------------------
+// C30: packet framing: header | payload | footer | extension; the footer carries the FNV-1a hash of
+// header and payload (hash/fnv abstracted: /verif/specs/hash.gospec), the reader accepts a packet
+// only when the hash matches
+// ---------------------------------------------------------------------------
+
+//@ property C30
+// (module.PeerID.Bytes and pid_bytes: module/zz_contracts_verif.go)
+//@ func NewPeerID(b) (id)
+//@   trusted
+//@   pure
+//@   ensures id != nil && (len(b) == 20 ==> pid_bytes(id) == seq(b))
+
+//@ spec be16(a, o) = (uint16(a[o]) << 8) | uint16(a[o + 1])
+//@ spec be32(a, o) = (uint32(a[o]) << 24) | (uint32(a[o + 1]) << 16) | (uint32(a[o + 2]) << 8) | uint32(a[o + 3])
+//@ spec be64(a, o) = (uint64(be32(a, o)) << 32) | uint64(be32(a, o + 4))
+// the 30 header bytes of a packet
+//@ spec hdrOf(p, h) = len(h) == 30 && be16(h, 0) == uint16(p.protocol) && be16(h, 2) == uint16(p.subProtocol) && bseq(arr(h), off(h) + 4, 20) == pid_bytes(p.src) && h[24] == p.dest && h[25] == p.ttl && be32(h, 26) == p.lengthOfPayload
+// the 10 footer bytes
+//@ spec ftrOf(p, f) = len(f) == 10 && be64(f, 0) == p.hashOfPacket && be16(f, 8) == uint16(p.extendInfo)
+
+// _read returns exactly the next n bytes of the input stream, however the reader chunks them
+//@ func (p *Packet) _read(r, n) (b, rn, err)
+//@   arith bv
+//@   requires r != nil && 0 <= ghost(r_pos) && ghost(r_pos) < 0x4000000000000000 && n < 0x100000000
+//@   modifies ghost(r_pos)
+//@   ensures [exact] err == nil ==> len(b) == n && rn == n && ghost(r_pos) == old(ghost(r_pos)) + n && fresh(b)
+//@   ensures [bytes] err == nil ==> off(b) == 0 && (forall a int :: {arr(b)[a]} 0 <= a && a < n ==> arr(b)[a] == ghost(r_arr)[old(ghost(r_pos)) + a])
+//@   ensures [consumed] 0 <= rn && ghost(r_pos) == old(ghost(r_pos)) + rn
+//@   loop 0: invariant 0 <= rn && rn < n && len(b) == n && off(b) == 0 && fresh(b) && ghost(r_pos) == old(ghost(r_pos)) + rn
+//@   loop 0: invariant forall a int :: {arr(b)[a]} 0 <= a && a < rn ==> arr(b)[a] == ghost(r_arr)[old(ghost(r_pos)) + a]
+
+//@ func (p *Packet) headerToBytes(force) (h)
+//@   arith bv
+//@   opt bseq-ext
+//@   requires p != nil && p.src != nil
+//@   modifies p.header
+//@   ensures [built] force || old(p.header) == nil ==> hdrOf(p, h) && fresh(h)
+//@   ensures [cached] !force && old(p.header) != nil ==> h == old(p.header)
+//@   ensures [stored] ref(p.header) == ref(h) && off(p.header) == off(h) && len(p.header) == len(h)
+//@   ensures [keep] !force && old(p.header) != nil ==> p.header == old(p.header)
+
+//@ func (p *Packet) setHeader(b) (rest, err)
+//@   arith bv
+//@   requires p != nil
+//@   modifies p.header, p.protocol, p.subProtocol, p.src, p.dest, p.ttl, p.lengthOfPayload
+//@   ensures [accept] err == nil <==> len(b) >= 30 && be32(b, 26) <= 1048576
+//@   ensures [fields] len(b) >= 30 ==> ref(p.header) == ref(b) && off(p.header) == off(b) && len(p.header) == 30 && hdrOf(p, p.header) && p.src != nil
+//@   ensures [rest] len(b) >= 30 ==> ref(rest) == ref(b) && off(rest) == off(b) + 30 && len(rest) == len(b) - 30
+
+//@ func (p *Packet) footerToBytes(force) (f)
+//@   arith bv
+//@   requires p != nil
+//@   modifies p.footer
+//@   ensures [built] force || old(p.footer) == nil ==> ftrOf(p, f) && fresh(f)
+//@   ensures [cached] !force && old(p.footer) != nil ==> f == old(p.footer) && p.footer == old(p.footer)
+//@   ensures [stored] ref(p.footer) == ref(f) && off(p.footer) == off(f) && len(p.footer) == len(f)
+
+//@ func (p *Packet) setFooter(b) (rest, err)
+//@   arith bv
+//@   requires p != nil
+//@   modifies p.footer, p.hashOfPacket, p.extendInfo
+//@   ensures [accept] err == nil <==> len(b) >= 10
+//@   ensures [fields] len(b) >= 10 ==> ref(p.footer) == ref(b) && off(p.footer) == off(b) && len(p.footer) == 10 && ftrOf(p, p.footer)
+
+//@ func (i packetExtendInfo) len() (l)
+//@   arith bv
+//@   pure
+//@   ensures l == int(uint16(i) & 0x3ff)
+
+// the hash object is fed exactly the header bytes and then the first lengthOfPayload payload bytes
+//@ spec payloadSeq(p) = bseq(arr(p.payload), off(p.payload), int(p.lengthOfPayload))
+//@ func (p *Packet) _hash(force) (h, err)
+//@   arith bv
+//@   requires p != nil && p.src != nil && int(p.lengthOfPayload) <= len(p.payload)
+//@   modifies p.header, ghost(h_n), ghost(h_a), ghost(h_b)
+//@   ensures [fed] err == nil && h != nil && ghost(h_n) == 2 && ghost(h_a) == seq(p.header) && ghost(h_b) == payloadSeq(p)
+//@   ensures [built] force || old(p.header) == nil ==> hdrOf(p, p.header) && fresh(p.header)
+//@   ensures [cached] !force && old(p.header) != nil ==> p.header == old(p.header)
+
+//@ func (p *Packet) updateHash(force) (err)
+//@   arith bv
+//@   requires p != nil && p.src != nil && int(p.lengthOfPayload) <= len(p.payload)
+//@   modifies p.header, p.hashOfPacket, ghost(h_n), ghost(h_a), ghost(h_b)
+//@   ensures [set] err == nil && (force || old(p.hashOfPacket) == 0 ==> p.hashOfPacket == fnv2(seq(p.header), payloadSeq(p)))
+//@   ensures [kept] !force && old(p.hashOfPacket) != 0 ==> p.hashOfPacket == old(p.hashOfPacket) && p.header == old(p.header)
+//@   ensures [built] (force || old(p.hashOfPacket) == 0) && (force || old(p.header) == nil) ==> hdrOf(p, p.header) && fresh(p.header)
+//@   ensures [cached] !force && old(p.header) != nil ==> p.header == old(p.header)
+
+// ReadFrom consumes header | payload | footer | extension from the stream, in this order and with
+// exactly the announced lengths, and accepts only if the footer's hash is the hash of exactly the
+// received header and payload bytes
+//@ spec strmHas(b, base) = forall a int :: {arr(b)[a]} off(b) <= a && a < off(b) + len(b) ==> arr(b)[a] == ghost(r_arr)[base + (a - off(b))]
+//@ func (p *Packet) ReadFrom(r) (n, err)
+//@   arith bv
+//@   opt nomerge
+//@   requires p != nil && r != nil && 0 <= ghost(r_pos) && ghost(r_pos) < 0x1000000000000000
+//@   modifies p.header, p.protocol, p.subProtocol, p.src, p.dest, p.ttl, p.lengthOfPayload, p.payload, p.footer, p.hashOfPacket, p.extendInfo, p.ext, ghost(r_pos), ghost(h_n), ghost(h_a), ghost(h_b)
+//@   ensures [hash] err == nil ==> p.hashOfPacket == fnv2(seq(p.header), payloadSeq(p))
+//@   ensures [header] err == nil ==> hdrOf(p, p.header)
+//@   ensures [header_bytes] err == nil ==> strmHas(p.header, old(ghost(r_pos)))
+//@   ensures [header_len] err == nil ==> p.lengthOfPayload <= 1048576
+//@   ensures [payload] err == nil ==> len(p.payload) == int(p.lengthOfPayload) && strmHas(p.payload, old(ghost(r_pos)) + 30)
+//@   ensures [footer] err == nil ==> ftrOf(p, p.footer) && strmHas(p.footer, old(ghost(r_pos)) + 30 + len(p.payload))
+//@   ensures [ext] err == nil && int(uint16(p.extendInfo) & 0x3ff) > 0 ==> len(p.ext) == int(uint16(p.extendInfo) & 0x3ff) && strmHas(p.ext, old(ghost(r_pos)) + 40 + len(p.payload))
+//@   ensures [consumed] err == nil ==> ghost(r_pos) == old(ghost(r_pos)) + 40 + len(p.payload) + int(uint16(p.extendInfo) & 0x3ff)
+
+// WriteTo emits header | payload[:length] | footer | ext[:extension length] in this order (one rule per
+// transport write, in program order, each pinning the bytes handed over and the stream position), where the header carries the
+// packet's fields and the footer the hash of exactly the emitted header and payload
+//@ func (p *Packet) WriteTo(w) (n, err)
+//@   arith bv
+//@   opt nomerge
+//@   requires p != nil && w != nil && p.src != nil && int(p.lengthOfPayload) <= len(p.payload) && int(uint16(p.extendInfo) & 0x3ff) <= len(p.ext)
+//@   requires 0 <= ghost(w_len) && ghost(w_len) < 0x1000000000000000 && p.header == nil && p.footer == nil && p.hashOfPacket == 0
+//@   modifies p.header, p.footer, p.hashOfPacket, ghost(w_arr), ghost(w_len), ghost(h_n), ghost(h_a), ghost(h_b)
+//@   callpre Write#0: ref(p) == ref(caller_p.header) && off(p) == off(caller_p.header) && len(p) == len(caller_p.header)
+//@   callpre Write#0: hdrOf(caller_p, p)
+//@   callpre Write#0: ghost(w_len) == old(ghost(w_len))
+//@   callpre Write#1: ref(p) == ref(caller_p.payload) && off(p) == off(caller_p.payload) && len(p) == int(caller_p.lengthOfPayload) && ghost(w_len) == old(ghost(w_len)) + 30
+//@   callpre Write#2: ref(p) == ref(caller_p.footer) && off(p) == off(caller_p.footer) && len(p) == len(caller_p.footer)
+//@   callpre Write#2: ftrOf(caller_p, p)
+//@   callpre Write#2: caller_p.hashOfPacket == fnv2(seq(caller_p.header), payloadSeq(caller_p))
+//@   callpre Write#2: ghost(w_len) == old(ghost(w_len)) + 30 + int(caller_p.lengthOfPayload)
+//@   callpre Write#3: ref(p) == ref(caller_p.ext) && off(p) == off(caller_p.ext) && len(p) == int(uint16(caller_p.extendInfo) & 0x3ff) && ghost(w_len) == old(ghost(w_len)) + 40 + int(caller_p.lengthOfPayload)
+//@   ensures [layout] err == nil ==> ghost(w_len) == old(ghost(w_len)) + 40 + int(p.lengthOfPayload) + int(uint16(p.extendInfo) & 0x3ff)
+//@   ensures [header] err == nil ==> hdrOf(p, p.header)
+//@   ensures [footer] err == nil ==> ftrOf(p, p.footer)
+//@   ensures [hash] err == nil ==> p.hashOfPacket == fnv2(seq(p.header), payloadSeq(p))
+
+// header and footer round trips (bodies in zz_lemmas_verif.go)
+//@ func verifLemmaHeaderRoundTrip(p, q) (err)
+//@   arith bv
+//@   opt bseq-ext
+//@   requires p != nil && q != nil && p != q && p.src != nil && p.lengthOfPayload <= 1048576
+//@   modifies p.header, q.header, q.protocol, q.subProtocol, q.src, q.dest, q.ttl, q.lengthOfPayload
+//@   ensures [roundtrip] err == nil && q.protocol == p.protocol && q.subProtocol == p.subProtocol && pid_bytes(q.src) == pid_bytes(p.src) && q.dest == p.dest && q.ttl == p.ttl && q.lengthOfPayload == p.lengthOfPayload
+//@ func verifLemmaFooterRoundTrip(p, q) (err)
+//@   arith bv
+//@   requires p != nil && q != nil && p != q
+//@   modifies p.footer, q.footer, q.hashOfPacket, q.extendInfo
+//@   ensures [roundtrip] err == nil && q.hashOfPacket == p.hashOfPacket && q.extendInfo == p.extendInfo
